@@ -100,8 +100,15 @@ def oracle(ctx, obs, max_py_cells):
                     r = ser[k][j]
                     if not (fin(r) and -SLACK <= r <= 1 + SLACK):
                         axes = "equal" if o["ls"] == o["li"] else "unequal"
-                        ctx.violation("S5", f"two-source rate {k} = {r!r} outside [0,1] at tau={tau!r} ({o['setup']}, n={n}, {axes} signal/idler axes)",
-                                      {"kind": "range", "channel": k, "axes": axes}, dict(rep, tau=tau, channel=k, rate=r, expected="0 <= rate <= 1",
+                        # the condition of C10_si_gt1_necessary / C10_range_partial: product of the norms of the channel's two cross grids vs N1*N2
+                        cross = {"ss": (2, 3), "ii": (4, 5), "si": (6, 7)}[k]
+                        nrm = [sum(abs(z) ** 2 for z in X) for X in A]
+                        Bk, N12 = nrm[cross[0]] * nrm[cross[1]], nrm[0] * nrm[1]
+                        cond = "violated" if Bk > N12 else "holds"
+                        ctx.violation("S5", f"two-source rate {k} = {r!r} outside [0,1] at tau={tau!r} ({o['setup']}, n={n}, {axes} signal/idler axes; "
+                                            f"cross-grid norm product / (N1 N2) = {Bk / N12!r}: norm condition {cond})",
+                                      {"kind": "range", "channel": k, "axes": axes, "norm_condition": cond},
+                                      dict(rep, tau=tau, channel=k, rate=r, expected="0 <= rate <= 1", cross_norm_ratio=Bk / N12,
                                                                                            finding="coq/Findings/C10_si_range.v" if (k == "si" and axes == "unequal") else None))
             # clause: V_ss = V_ii = sum s^4 / (sum s^2)^2 at zero delay (1e-9)
             if o.get("sv2") is not None:
